@@ -39,3 +39,8 @@ claim('C18',
       'who-may-mutate + reachability rule on registry cleanup, insertion-only-through-vacant-entry table rule, dominance (notify before remove, awaited), provenance of exit notices and gen_server replies, single-consumer loop shape, bookkeeping symmetry tables',
       'Decided from MIR: when a process task ends every path reaches registry.remove(own pid), which deletes from by_pid and from by_name; by_name is only ever inserted through Entry::Vacant (a name never maps to two processes); exit propagation is awaited on every path before the removal, iterates snapshots of the link and monitor sets, and each notice carries handle.pid and the stored reference; the task is the single consumer of a tokio mpsc receiver and calls handle_message once per received message; gen_server sends exactly one {Reference, Reply} to the caller; local link/unlink/monitor/demonitor keep both handles symmetric. Not decided: exactly-once/ordering under interleavings (tokio channel semantics trusted), instantaneous consistency of the two separately locked tables.',
       NOTE, 'DESIGN.md §4 C18')
+
+claim('C19',
+      'routing-table extraction with provenance (recipient and notice fields), loop-exit classification over the statically computed producible error set (Display literals / discriminant switch evaluated from MIR), CFG exit-edge rules, dominance of deregistration',
+      'Decided from MIR: route_message delivers Send/RegSend/Exit/MonitorPExit to the recipient named in the control message (RegSend via whereis) with sender, reference and reason taken from the matching fields, and everything else is ignored; no loop exit lies on the Ok arm (routing failures and unknown recipients keep the receiver alive); for each edp_client::Error variant that receive_message_from_read_half can actually return (computed from constructions, ?-conversions and callees) the loop continues or breaks as the property requires (evaluated on the predicate the code uses: a substring test on the variants\' Display literals, or a discriminant match); connections.remove runs only after the loop and on every exit. Not decided: fault sequences over time, cancel-safety of reads.',
+      NOTE, 'DESIGN.md §4 C19')
